@@ -164,6 +164,13 @@ pub fn make_settings(cfg: &Value, dir: &Path) -> Result<Settings, String> {
             ov.price.before_time = Some(bt.to_string());
         }
     }
+    // command-line style overlaps of the mode switches (`--strict.mode`, `--audit.mode`)
+    if let Some(v) = cfg.get("ov_strict").and_then(|x| x.as_bool()) {
+        ov.strict.mode = Some(v);
+    }
+    if let Some(v) = cfg.get("ov_audit").and_then(|x| x.as_bool()) {
+        ov.audit.mode = Some(v);
+    }
     Settings::try_from(c, ov).map_err(|e| format!("settings: {e}"))
 }
 
